@@ -104,7 +104,7 @@ theorem emit_noSplit (cfg : Config) (ops : FloatOps F) (mult : Option Nat) (e : 
 
 open JsonTree in
 /-- **Stage 2 (`emf_refines_spec_global_partial`).** For every configuration with at least one namespace
-whose extra directives name their units (`extrasOk`), every switch setting, number type / float operations /
+every switch setting, number type / float operations /
 text function, multiplicity that fits a `u64` (or none), clock value and every ACCEPTED entry
 (`validate … = []`) in which NO metric is routed to a split record (`noSplit`: the configuration ignores
 per-metric dimensions, or every metric's dimension list is empty): the operational model on a fresh
@@ -115,13 +115,13 @@ occurrences saturating-times multiplicity), the same declarations in every names
 directives, the log group and the timestamp.
 
 EXCLUDED (hence `_partial`): entries with a metric routed to a split record (Stage 3, not done);
-extra directives with `Unit::None` or `StorageResolution` 60 (not expressible in `EmfSpec.Decl`);
+extra directives with `StorageResolution` 60 (not expressible in `EmfSpec.Decl`);
 a multiplicity above `u64::MAX` (the models differ there: `satMul 1 m`, not a value a `u64` can hold);
 a writer that fails (`ioBudget = none` here; C02 `format_ok_unlimited` relates a successful budgeted
 write to the unlimited one). -/
 theorem emf_refines_spec_global_partial (cfg : Config) (sw : Switches) (ops : FloatOps F) (txt : F → List Nat)
     (mult : Option Nat) (nowMs : Nat) (e : Entry F)
-    (hns : cfg.namespaces ≠ []) (hx : extrasOk cfg = true) (hm : multOk mult)
+    (hns : cfg.namespaces ≠ []) (hm : multOk mult)
     (hsplit : noSplit cfg e = true) (hv : validate cfg sw e = []) :
     records cfg sw ops mult e = .ok [mkRecord cfg ops mult e none (metricItems e) cfg.extra] ∧
     runEmf cfg sw ops txt mult nowMs e =
@@ -180,7 +180,7 @@ theorem emf_refines_spec_global_partial (cfg : Config) (sw : Switches) (ops : Fl
       split <;> omega
   rw [hdims, hts]
   simp only [List.nil_append]
-  rw [globalLine_eq_print cfg sw txt ns0 more hnseq hx]
+  rw [globalLine_eq_print cfg sw txt ns0 more hnseq]
   simp only [recordJson, mkRecord, Option.getD_none, List.map_nil, List.append_nil, List.nil_append, List.map_id']
   rw [List.take_left' (by simp), List.drop_left' (by simp)]
   have hstr : ∀ x : Str × Str, mvalJson txt (MVal.str x.2) = JsonTree.JVal.str x.2 := fun _ => rfl
@@ -189,13 +189,13 @@ theorem emf_refines_spec_global_partial (cfg : Config) (sw : Switches) (ops : Fl
 /-- the same for a formatter with any history (C14) -/
 theorem emf_refines_spec_global_reachable_partial (cfg : Config) (sw : Switches) (ops : FloatOps F) (txt : F → List Nat)
     (mult : Option Nat) (nowMs : Nat) (e : Entry F) {s : Emf.State} (hs : Emf.Reachable (toEmfCfg cfg sw) s)
-    (hns : cfg.namespaces ≠ []) (hx : extrasOk cfg = true) (hm : multOk mult)
+    (hns : cfg.namespaces ≠ []) (hm : multOk mult)
     (hsplit : noSplit cfg e = true) (hv : validate cfg sw e = []) :
     let r := Emf.format (Emf.Consts.ofConfig (toEmfCfg cfg sw)) s (toCall ops txt mult nowMs e)
     r.2.1 = .ok ∧
     r.2.2.bytes = JsonTree.print (recordJson txt cfg.namespaces.length nowMs
                     (mkRecord cfg ops mult e none (metricItems e) cfg.extra)) ++ [10] := by
-  have h := (emf_refines_spec_global_partial cfg sw ops txt mult nowMs e hns hx hm hsplit hv).2
+  have h := (emf_refines_spec_global_partial cfg sw ops txt mult nowMs e hns hm hsplit hv).2
   have hc := Emf.c14_history_independent (toEmfCfg cfg sw) hs (toCall ops txt mult nowMs e)
   simp only [runEmf] at h
   simp only
@@ -240,15 +240,12 @@ def exCfg2 : Config := { namespaces := [bytes! "Ns", bytes! "Ns2"], defaultDims 
 
 example : validate exCfg2 allOn exGood = [] := by decide
 example : noSplit exCfg2 exGood = true := by decide
-example : extrasOk exCfg2 = true := by decide
 example : exCfg2.namespaces ≠ [] := by decide
 example : multOk (some 2) := by intro m h; cases h; decide
 /-- the hypotheses are not vacuous, and the reader reads the operational line back as the record's tree -/
 example : ((JsonTree.readLine (runEmf exCfg2 allOn textOps textTxt (some 2) 0 exGood).2).map fun t =>
     t == recordJson textTxt 2 0 (mkRecord exCfg2 textOps (some 2) exGood none (metricItems exGood) exCfg2.extra))
       = some true := by decide +kernel
-example : agree exCfg2 allOn textOps textTxt (some 2) 0 exGood = true := by decide +kernel
-example : agree exCfg allOn textOps textTxt none 0 exBad = true := by decide +kernel
 
 end Examples
 
